@@ -111,13 +111,14 @@ fn choice_of(v: u64) -> colorchoice::ColorChoice {
     }
 }
 
-pub fn choice_child(threads: usize, rounds: usize, ops: usize, seed: u64, stress: bool) {
+pub fn choice_child(threads: usize, rounds: usize, ops: usize, seed: u64, stress: bool, lo: u64, step: u64) {
     let barrier = Arc::new(Barrier::new(threads + 1));
     let mut out = std::io::BufWriter::new(std::io::stdout().lock());
     let mut id = 0u64;
     for round in 0..rounds {
-        // stress rounds: long tight loops writing only AlwaysAnsi(1)/Always(2), so that a torn update shows as Auto(0)/Never(3)
-        let v0 = if stress { 1 } else { (round as u64 * 3 + seed) % 4 };
+        // stress rounds: long tight loops writing only two values - AlwaysAnsi(1)/Always(2), so that a torn update shows as
+        // Auto(0)/Never(3); or Auto(0)/Never(3) ("stress0"), so that a read that settles a default over a concurrent write shows
+        let v0 = if stress { lo } else { (round as u64 * 3 + seed) % 4 };
         choice_of(v0).write_global();
         writeln!(out, "{}", json!({"e":"start","id":0,"kind":"w","val":v0})).unwrap();
         let hs: Vec<_> = (0..threads)
@@ -131,7 +132,7 @@ pub fn choice_child(threads: usize, rounds: usize, ops: usize, seed: u64, stress
                     for k in 0..ops {
                         let opid = base + k as u64 + 1;
                         if r.chance(1, 2) {
-                            let v = if stress { 1 + r.below(2) as u64 } else { r.below(4) as u64 };
+                            let v = if stress { lo + step * r.below(2) as u64 } else { r.below(4) as u64 };
                             let inv = SEQ.fetch_add(1, Ordering::SeqCst);
                             choice_of(v).write_global();
                             let res = SEQ.fetch_add(1, Ordering::SeqCst);
